@@ -383,12 +383,25 @@ func processSubscribe(c *Client, p packets.ControlPacket) {
 	packet := p.(*packets.SubscribePacket)
 	logger.SpanDebugf(nil, "client %s subscribe %v with qos %v", c.info.cid, packet.Topics, packet.Qoss)
 
-	err := c.broker.topicMgr.subscribe(packet.Topics, packet.Qoss, c.info.cid)
+	// the read loop may still get here after this connection's clean-up has
+	// run (session deleted by an admin, taken over by a newer connection, write
+	// loop's error path): nobody would ever remove what it adds now. The broker
+	// lock makes the check atomic with respect to those clean-ups.
+	b := c.broker
+	b.Lock()
+	if c.takenOver() || atomic.LoadInt32(&c.cleanFlag) == 1 {
+		b.Unlock()
+		logger.SpanErrorf(nil, "client %v subscribe %v ignored: connection already cleaned up", c.info.cid, packet.Topics)
+		return
+	}
+	err := b.topicMgr.subscribe(packet.Topics, packet.Qoss, c.info.cid)
 	if err != nil {
+		b.Unlock()
 		logger.SpanErrorf(nil, "client %v subscribe %v failed: %v", c.info.cid, packet.Topics, err)
 		return
 	}
 	c.session.subscribe(packet.Topics, packet.Qoss)
+	b.Unlock()
 
 	suback := packets.NewControlPacket(packets.Suback).(*packets.SubackPacket)
 	suback.MessageID = packet.MessageID
